@@ -92,8 +92,80 @@ def forallIO (ins outs : List (V3 Float)) (p1 : V3 Float → V3 Float → Bool)
 
 def dot (a b : V3 Float) : Float := a.Dot b
 
+/-! normals and Laplacian: recomputed from their value statements (Props/C03Normals, C03Laplacian) in an order
+DIFFERENT from the code's — triangles visited in reverse for the corner sums, neighbours enumerated descending — so the
+predicates do not re-run the model's loops -/
+
+def cornerCnt (t : Nat × Nat × Nat) (v : Nat) : Float :=
+  (if t.1 == v then 1.0 else 0.0) + (if t.2.1 == v then 1.0 else 0.0) + (if t.2.2 == v then 1.0 else 0.0)
+
+def crossOf (pos : Array (V3 Float)) (t : Nat × Nat × Nat) : Option (V3 Float) :=
+  match pos[t.1]?, pos[t.2.1]?, pos[t.2.2]? with
+  | some a, some b, some c => some ((b.Sub a).Cross (c.Sub a))
+  | _, _, _ => none
+
+def sameOrBothNaN (a b tol : Float) : Bool := (a != a && b != b) || (a - b).abs ≤ tol
+def sameV (a b : V3 Float) (tol : Float) : Bool := sameOrBothNaN a.x b.x tol && sameOrBothNaN a.y b.y tol && sameOrBothNaN a.z b.z tol
+
+/-- smooth normal of `v`: normalised sum over incident corners (reverse visiting order); `none` = skip the vertex
+    (cancellation makes the direction of a tiny sum order-sensitive in floating point) -/
+def smoothExpect (pos : Array (V3 Float)) (ts : List (Nat × Nat × Nat)) (v : Nat) : Option (V3 Float) :=
+  let step := fun (acc : V3 Float × Float) (t : Nat × Nat × Nat) =>
+    match crossOf pos t with
+    | some c => if c.x != c.x then acc else
+        let k := cornerCnt t v
+        (acc.1.Add (c.Scale k), acc.2 + k * c.Length)
+    | none => acc
+  let (S, A) := ts.reverse.foldl step (V3.Zero, 0.0)
+  if S.x == 0.0 && S.y == 0.0 && S.z == 0.0 then (if A == 0.0 then some S else none)
+  else if S.Length < 1e-6 * A then none else some S.Normalized
+
+def flatExpect (pos : Array (V3 Float)) (ts : List (Nat × Nat × Nat)) (v : Nat) : V3 Float :=
+  match ts.reverse.find? (fun t => (t.1 == v || t.2.1 == v || t.2.2 == v) && (crossOf pos t).isSome) with
+  | some t => match crossOf pos t with
+      | some c => c.Normalized.Normalized
+      | none => (V3.One : V3 Float).Normalized
+  | none => (V3.One : V3 Float).Normalized
+
+def lapSweepDesc (es : List (Nat × Nat)) (factor : Float) (vs : Array (V3 Float)) : Array (V3 Float) :=
+  (List.range vs.size).foldl (fun cur vi =>
+    match cur[vi]? with
+    | none => cur
+    | some vertex =>
+      let nb := (MeshVal.neighbours es vi).reverse
+      let sum := nb.foldl (fun acc vn => match cur[vn]? with | some x => x.Add acc | none => acc) V3.Zero
+      cur.set! vi (vertex.Add (((sum.DivByConstant nb.length.toFloat).Sub vertex).Scale factor))) vs
+
 def postOracle (args : List String) : Option Bool :=
   match args with
+  | "smoothnormals" :: ts => do
+      let (m, ts) ← pMesh ts; let (o, _) ← pMesh ts
+      let pos := (v3sOf m "Position").toArray; let outs := v3sOf o "Normal"
+      if !(pos.toList.all finV) then pure true else
+      let tris := triples m.indices
+      pure (outs.length == pos.size && (outs.zipIdx.all fun ov =>
+        let n := ov.1
+        -- unit length or exactly zero, and equal to the normalised corner sum
+        ((n.x == 0.0 && n.y == 0.0 && n.z == 0.0) || (n.Length - 1.0).abs ≤ 1e-9) &&
+        (match smoothExpect pos tris ov.2 with
+         | some e => sameV n e 1e-7
+         | none => true)))
+  | "flatnormals" :: ts => do
+      let (m, ts) ← pMesh ts; let (o, _) ← pMesh ts
+      let pos := (v3sOf m "Position").toArray; let outs := v3sOf o "Normal"
+      if !(pos.toList.all finV) then pure true else
+      let tris := triples m.indices
+      pure (outs.length == pos.size && (outs.zipIdx.all fun ov => sameV ov.1 (flatExpect pos tris ov.2) 1e-12))
+  | "laplacian" :: ts => do
+      let (name, ts) ← pTok ts; let (iters, ts) ← pNat ts; let (f, ts) ← pFloat ts
+      let (m, ts) ← pMesh ts; let (o, _) ← pMesh ts
+      let pos := (v3sOf m name).toArray; let outs := v3sOf o name
+      match m.edges with
+      | none => pure false
+      | some es =>
+        let res := (List.range iters).foldl (fun cur _ => lapSweepDesc es f cur) pos
+        let scale := pos.toList.foldl (fun acc v => if finV v then max acc (mag v) else acc) 1.0
+        pure (outs.length == pos.size && ((outs.zip res.toList).all fun oe => sameV oe.1 oe.2 (1e-9 * scale)))
   | "translate" :: ts => do
       let (name, ts) ← pTok ts; let (t, ts) ← pV3 ts
       let (m, ts) ← pMesh ts; let (o, _) ← pMesh ts
